@@ -45,7 +45,9 @@ JudgeCentre(e) ==
 JudgeSample(e) ==
   IF e.outcome = "panic"
   THEN (IF AmbiguousVec(e.from, e.to, N_AU) THEN {} ELSE {"sampler-panics"})
-  ELSE (IF ~e.acc /\ ~AmbiguousVec(e.from, e.to, N_AU) THEN {"sample-rejected-by-compliant"} ELSE {})
+  \* (e.edge: the sample is within 1e-14 rad of an end of its arc, where the rounding of centre and half-width
+  \*  decides the library's verdict - arc ends are don't-care everywhere)
+  ELSE (IF ~e.acc /\ ~e.edge /\ ~AmbiguousVec(e.from, e.to, N_AU) THEN {"sample-rejected-by-compliant"} ELSE {})
        \cup (IF Decided(e, e.a) /\ ~OnArcVec(e.from, e.to, e.a, N_AU)
              THEN {"sample-off-arc"} ELSE {})
 
